@@ -173,7 +173,10 @@ class UdpInverterProtocol(InverterProtocol, asyncio.DatagramProtocol):
     def error_received(self, exc: Exception) -> None:
         """On error received"""
         logger.debug("Received error: %s", exc)
-        self.response_future.set_exception(exc)
+        try:
+            self.response_future.set_exception(exc)
+        except asyncio.InvalidStateError:
+            logger.debug("Response already handled.")
         self._close_transport()
 
     async def send_request(self, command: ProtocolCommand) -> Future:
@@ -319,7 +322,10 @@ class TcpInverterProtocol(InverterProtocol, asyncio.Protocol):
     def error_received(self, exc: Exception) -> None:
         """On error received"""
         logger.debug("Received error: %s", exc)
-        self.response_future.set_exception(exc)
+        try:
+            self.response_future.set_exception(exc)
+        except asyncio.InvalidStateError:
+            logger.debug("Response already handled.")
         self._close_transport()
 
     async def send_request(self, command: ProtocolCommand) -> Future:
@@ -459,7 +465,7 @@ class ProtocolCommand:
             raise RequestFailedException(
                 "No response received to '" + self.request.hex() + "' request."
             )
-        except (asyncio.CancelledError, ConnectionRefusedError):
+        except (asyncio.CancelledError, ConnectionRefusedError, OSError):
             raise RequestFailedException(
                 "No valid response received to '" + self.request.hex() + "' request."
             ) from None
